@@ -32,6 +32,15 @@ computes up to float rounding) -/
 def linSel (n k : Nat) : List Nat :=
   if k ≤ 1 then [0] else (List.range k).map (fun i => i * (n - 1) / (k - 1))
 
+/-- `AreaDefinition._get_geostationary_boundary_sides`: the vertices of (extent ∩ Earth-disk polygon), however many the
+intersection returned, are split into four sides: `x[0 : s+1]`, `x[s : s+2]`, `x[s+1 :]`, `[x[-1], x[0]]` with `s = len(x) // 2 - 1` -/
+def geosSides {α} (x : List α) : List (List α) :=
+  let s := x.length / 2 - 1
+  [x.take (s + 1), (x.drop s).take 2, x.drop (s + 1), (x.getLast?.toList ++ x.head?.toList)]
+
+/-- `AreaBoundary.contour` for any vertex type -/
+def contourOf {α} (ss : List (List α)) : List α := ss.flatMap (fun s => s.dropLast)
+
 /-! ### driver -/
 open Wire
 
@@ -51,6 +60,11 @@ def handle : List String → Option String
     let c := contour ss
     let cr := contour (reverseSides ss)
     some (" ".intercalate (good.map showBool) ++ " | " ++ " ".intercalate (c.map showPx) ++ " | " ++ " ".intercalate (cr.map showPx))
+  | ["geos", n] => do
+    -- geos <n> → the four sides (as indices into the n vertices of the extent ∩ disk polygon) | the contour
+    let n ← nat? n
+    let ss := geosSides (List.range n)
+    some (" ; ".intercalate (ss.map (fun s => " ".intercalate (s.map toString))) ++ " | " ++ " ".intercalate ((contourOf ss).map toString))
   | ["linsel", n, k] => do
     let n ← nat? n; let k ← nat? k
     some (showList toString (linSel n k))
